@@ -360,13 +360,33 @@ def dict_model_results(ops, vs, prepop):
 
 
 def db_combo(item):
-    bodies_ops, prepop, bound = item
+    bodies_ops, prepop, bound = item[:3]
+    ondisk = len(item) > 3 and item[3]
     vs = verifiers()
     stats = {"schedules": 0, "fails": [], "outcomes": set(),
              "complete": True}
+    tmpdir = None
+    opened = []
+    files = ("basedb.py", "verifierdb.py")
+    if ondisk:
+        import tempfile
+        tmpdir = tempfile.mkdtemp(prefix="c18-db-")
+        # the pure-Python dbm backend takes part in the schedule: its flush
+        # walks the live index
+        files = files + ("dbm/dumb.py",)
 
     def mb():
-        db = VerifierDB()
+        if ondisk:
+            import os
+            while opened:           # the previous execution's handle
+                try:
+                    opened.pop().db.close()
+                except Exception:   # noqa
+                    pass
+            db = VerifierDB(os.path.join(tmpdir, "db"))
+            opened.append(db)
+        else:
+            db = VerifierDB()
         db.create()
         for (k, i) in prepop:
             db[k] = vs[i]
@@ -402,9 +422,18 @@ def db_combo(item):
             stats["fails"].append({"why": why, "schedule": list(s.taken),
                                    "bodies": bodies_ops})
 
-    n, complete = explore_with_late_locks(
-        mb, ("basedb.py", "verifierdb.py"), bound, None, on_exec,
-        lambda ctx: [ctx["db"].lock])
+    try:
+        n, complete = explore_with_late_locks(
+            mb, files, bound, None, on_exec, lambda ctx: [ctx["db"].lock])
+    finally:
+        while opened:
+            try:
+                opened.pop().db.close()
+            except Exception:   # noqa
+                pass
+        if tmpdir:
+            import shutil
+            shutil.rmtree(tmpdir, ignore_errors=True)
     stats["complete"] = complete
     stats["outcomes"] = len(stats["outcomes"])
     return stats
@@ -647,6 +676,13 @@ def run(res, tier, seed):
     for b1 in dbodies:
         for b2 in [[o] for o in dops]:
             ditems.append(([b1, b2], [(b"u", 0)], bound))
+    # the same store on disk (anydbm; here the pure-Python dbm.dumb): the
+    # operations that change the index, pairwise
+    odops = [("set", b"w", 1), ("set", b"x", 0), ("del", b"u"),
+             ("set", b"u", 1), ("get", b"u"), ("keys",)]
+    for a in odops:
+        for b in odops[:4]:
+            ditems.append(([[a], [b]], [(b"u", 0)], bound, True))
     ds = 0
     for st in pmap(db_combo, ditems, chunksize=2):
         ds += st["schedules"]
